@@ -183,6 +183,11 @@ Definition parabolic_max (x : list C) : option (bool * C * C) :=
         Some (false, cadd (parab_ipeak a b c) (natC imax), parab_maxi a b c)
   end.
 
+(* 2-D branch (x.ndim != 1): the same rule applied to every row (argmax along the last axis,
+   neighbours gathered per row, edges overwritten per row) *)
+Definition parabolic_max_rows (X : list (list C)) : list (option (bool * C * C)) :=
+  map parabolic_max X.
+
 (* ------------------------------------------------------------------------ *)
 (* waveforms.wave_shift_corrmax(spike, spike2)   (src/ibldsp/waveforms.py)
      c = scipy.signal.correlate(spike, spike2, mode='same')
